@@ -2,9 +2,11 @@
    (bool, option, unit, list, prod, sumbool, comparison -> OCaml's own); nat, positive, N, Z
    stay the Coq inductives.  Run with coqc from /verif/ocaml so model.ml lands there. *)
 From Coq Require Import Extraction ExtrOcamlBasic.
-From Servitor Require Import Base History Feed.
+From Servitor Require Import Base Unicode Ansi History Feed.
 Extraction Language OCaml.
 Extraction "model.ml"
-  text_eqb
+  text_eqb is_space is_control
+  expand collapse apply indent pad wrap wrap_cells dumb_wrap snip height center_vertically
+  replace_last_line scrub squash set_length
   h_init h_step h_current h_is_empty
   f_start f_step f_obs f_current t_start t_step t_obs t_at.
